@@ -719,7 +719,9 @@ pub fn run12(cfg: &Config) -> Report {
     let n = cfg.n(1500, 40_000) as u64;
     let max_dna = if cfg.thorough() { 8 } else { 6 };
     run_cases(cfg, n, |case, rng, rep| {
-        if case % 5 == 4 {
+        if case % 10 == 7 {
+            case12::<crate::model::Abc6>(case, rng, rep, "user_defined_6", 5)
+        } else if case % 5 == 4 {
             case12::<Protein>(case, rng, rep, "protein", 3)
         } else {
             case12::<Dna>(case, rng, rep, "dna", max_dna)
@@ -731,7 +733,9 @@ pub fn run13(cfg: &Config) -> Report {
     let n = cfg.n(2500, 80_000) as u64;
     let max_dna = if cfg.thorough() { 8 } else { 6 };
     run_cases(cfg, n, |case, rng, rep| {
-        if case % 5 == 4 {
+        if case % 10 == 7 {
+            case13::<crate::model::Abc6>(case, rng, rep, "user_defined_6", 5)
+        } else if case % 5 == 4 {
             case13::<Protein>(case, rng, rep, "protein", 3)
         } else {
             case13::<Dna>(case, rng, rep, "dna", max_dna)
